@@ -159,10 +159,49 @@ func (a *FA) PathConds(b *ssa.BasicBlock) []*Expr {
 
 func (a *FA) PathCondStrings(b *ssa.BasicBlock) map[string]bool {
 	m := map[string]bool{}
-	for _, c := range a.PathConds(b) {
+	conds := a.PathConds(b)
+	for _, c := range conds {
 		m[c.String()] = true
 	}
+	eqClose(m, conds)
 	return m
+}
+
+// eqClose adds, for every equality (A == B) among conds, the variants of the strings with A and B interchanged:
+// an equality established on every path to a point makes its two sides interchangeable at that point.
+func eqClose(m map[string]bool, conds []*Expr) {
+	var eqs [][2]string
+	for _, pc := range conds {
+		if pc.Op != "bin" || pc.Name != "==" || len(pc.Args) != 2 {
+			continue
+		}
+		x, y := pc.Args[0].String(), pc.Args[1].String()
+		if len(x) < 4 || len(y) < 4 {
+			continue
+		}
+		eqs = append(eqs, [2]string{x, y})
+	}
+	if len(eqs) == 0 {
+		return
+	}
+	var add []string
+	for s := range m {
+		for _, e := range eqs {
+			self := "(" + e[0] + " == " + e[1] + ")"
+			if s == self {
+				continue
+			}
+			if strings.Contains(s, e[0]) {
+				add = append(add, strings.ReplaceAll(s, e[0], e[1]))
+			}
+			if strings.Contains(s, e[1]) {
+				add = append(add, strings.ReplaceAll(s, e[1], e[0]))
+			}
+		}
+	}
+	for _, s := range add {
+		m[s] = true
+	}
 }
 
 func isErrorType(t types.Type) bool {
@@ -324,6 +363,13 @@ func (a *FA) GuardSet() map[string]*Guard {
 	m := map[string]*Guard{}
 	for _, g := range a.Guards() {
 		m[g.String()] = g
+		one := map[string]bool{g.String(): true}
+		eqClose(one, a.PathConds(g.If.Block()))
+		for s := range one {
+			if _, dup := m[s]; !dup {
+				m[s] = g
+			}
+		}
 	}
 	return m
 }
@@ -333,6 +379,11 @@ type CallSite struct {
 	Ins  ssa.CallInstruction
 	Fn   *ssa.Function
 	Name string // canonical callee name
+	// instance of a site whose argument is a merge of constants (`s := 2; if c { s = 1 }; f(s)`): the merge is
+	// resolved to one incoming edge, and the conditions of that edge hold in addition to those of the site
+	PhiPick    *ssa.Phi
+	PhiEdge    int
+	ExtraConds []string
 }
 
 func (p *Program) CallsIn(fn *ssa.Function) []*CallSite {
@@ -382,6 +433,85 @@ func (p *Program) ArgExprs(cs *CallSite) []*Expr {
 	}
 	for _, a := range c.Args {
 		out = append(out, x.E(a))
+	}
+	if cs.PhiPick != nil {
+		repl := x.E(cs.PhiPick.Edges[cs.PhiEdge])
+		for i, e := range out {
+			out[i] = replaceVal(e, cs.PhiPick, repl)
+		}
+	}
+	return out
+}
+
+// replaceVal rewrites the nodes of e that stand for value v.
+func replaceVal(e *Expr, v ssa.Value, repl *Expr) *Expr {
+	if e == nil {
+		return nil
+	}
+	if e.Val == v && e.Op == "phi" {
+		return repl
+	}
+	if len(e.Args) == 0 {
+		return e
+	}
+	na := make([]*Expr, len(e.Args))
+	changed := false
+	for i, a := range e.Args {
+		na[i] = replaceVal(a, v, repl)
+		if na[i] != a {
+			changed = true
+		}
+	}
+	if !changed {
+		return e
+	}
+	return &Expr{Op: e.Op, Name: e.Name, Args: na, Val: e.Val}
+}
+
+// Instances expands a call site whose arguments contain a merge of constants into one instance per incoming edge.
+func (p *Program) Instances(cs *CallSite) []*CallSite {
+	if cs.PhiPick != nil {
+		return []*CallSite{cs}
+	}
+	var pick *ssa.Phi
+	n := 0
+	for _, e := range p.ArgExprs(cs) {
+		e.Walk(func(s *Expr) {
+			ph, ok := s.Val.(*ssa.Phi)
+			if !ok || s.Op != "phi" || s.Name != "" || ph.Parent() != cs.Fn {
+				return
+			}
+			for _, a := range s.Args {
+				if a.Op != "const" {
+					return
+				}
+			}
+			if pick != ph {
+				pick = ph
+				n++
+			}
+		})
+	}
+	if pick == nil || n != 1 || len(pick.Edges) > 4 || len(pick.Edges) != len(pick.Block().Preds) {
+		return []*CallSite{cs}
+	}
+	a := p.FA(cs.Fn)
+	var out []*CallSite
+	for i := range pick.Edges {
+		pr := pick.Block().Preds[i]
+		var extra []string
+		for s := range a.PathCondStrings(pr) {
+			extra = append(extra, s)
+		}
+		if iff, ok := pr.Instrs[len(pr.Instrs)-1].(*ssa.If); ok && pr.Succs[0] != pr.Succs[1] {
+			c := a.X.E(iff.Cond)
+			if pr.Succs[1] == pick.Block() {
+				c = negate(c)
+			}
+			extra = append(extra, c.String())
+		}
+		sort.Strings(extra)
+		out = append(out, &CallSite{Ins: cs.Ins, Fn: cs.Fn, Name: cs.Name, PhiPick: pick, PhiEdge: i, ExtraConds: extra})
 	}
 	return out
 }
